@@ -208,3 +208,78 @@ func init() {
 	register(&Scenario{Prop: "C08", Name: "c08/client-peer-scripts-yieldcodec", Quick: []Bound{{1, 1}}, Thorough: []Bound{{2, 1}}, Body: c02BodyEnc(2, true, "yield-pb"), OnlyKeys: []string{"panic/", "livelock/"}})
 	register(&Scenario{Prop: "C02", Name: "c02/raw-2calls-close", Quick: []Bound{{1, 0}}, Thorough: []Bound{{2, 1}}, Body: c02Body(2, true)})
 }
+
+// rejectCodec: a body codec that yields and then refuses values starting with 0xEE 0xEE (a
+// request that cannot be encoded fails locally, while other calls are in flight).
+type rejectCodec struct{ inner rpc.Codec }
+
+var errRejected = fmt.Errorf("value rejected by the body codec")
+
+func (c rejectCodec) Marshal(buf []byte, v interface{}) ([]byte, error) {
+	vs.Yield()
+	if p, ok := v.(*[]byte); ok && len(*p) >= 2 && (*p)[0] == 0xEE && (*p)[1] == 0xEE {
+		return nil, errRejected
+	}
+	return c.inner.Marshal(buf, v)
+}
+
+func (c rejectCodec) Unmarshal(data []byte, v interface{}) error { return c.inner.Unmarshal(data, v) }
+
+func rejectBytesCodec() rpc.Codec { return rejectCodec{&rpc.BYTESCodec{}} }
+
+// a request that cannot be encoded, issued between other calls: every call is still completed
+// exactly once, the unencodable one with its own error, the others with their own replies.
+func c02EncodeFailure(x *X) {
+	pipelined := x.Choose(2) == 1
+	nbad := 1 + x.Choose(2)
+	f := newFixture(srvOpts{bufSize: 64, codec: rejectBytesCodec}, cliOpts{bufSize: 64, pipelining: pipelined})
+	var bad []*ucall
+	for i := 0; i < nbad; i++ {
+		c := newUcall(0xEE, 0xEE, 20+i, formGo)
+		bad = append(bad, c)
+		c.spawn(f.conn)
+	}
+	b := newUcall(2, fGate, 31, formGo)
+	b.spawn(f.conn)
+	vs.QuiesceKeep()
+	c := newUcall(3, fGate, 44, formCall)
+	c.spawn(f.conn)
+	d := newUcall(4, 0, 27, formRoundTrip)
+	d.spawn(f.conn)
+	vs.QuiesceKeep()
+	f.w.open(3)
+	vs.QuiesceKeep()
+	f.w.open(2)
+	vs.Quiesce()
+	out := ""
+	for _, a := range bad {
+		switch {
+		case !a.ret:
+			x.Fail("C02/never-completed/unencodable", "a call whose arguments the body codec rejects never completed")
+		case a.err == nil:
+			x.Fail("C02/unencodable-call-succeeded", "a call whose arguments the body codec rejects completed without error, reply %x", a.reply)
+		}
+		out += " bad:" + errStr(a.err)
+	}
+	for _, c := range []*ucall{b, c, d} {
+		switch {
+		case !c.ret:
+			x.Fail("C02/never-completed/next-to-unencodable", "call %d (%s) issued next to a call that could not be encoded never completed", c.tag, formNames[c.form])
+		case c.err != nil:
+			x.Fail("C02/failed/next-to-unencodable", "call %d (%s) issued next to a call that could not be encoded failed: %v", c.tag, formNames[c.form], c.err)
+		case !eqBytes(c.reply, c.want()):
+			x.Fail("C02/success-without-own-reply/next-to-unencodable", "call %d (%s) completed without error but its reply is %x, want %x", c.tag, formNames[c.form], c.reply, c.want())
+		}
+		out += fmt.Sprintf(" %d:%v/%s", c.tag, c.ret, errStr(c.err))
+	}
+	if n := f.conn.NumCalls(); n != 0 {
+		x.Fail("C02/calls-left-registered", "NumCalls is %d after every call has completed", n)
+	}
+	x.Outcome("pipelined=%v nbad=%d%s", pipelined, nbad, out)
+	f.conn.Close()
+	vs.Quiesce()
+}
+
+func init() {
+	register(&Scenario{Prop: "C02", Name: "c02/encode-failure-among-calls", Quick: []Bound{{1, 0}, {2, 0}}, Thorough: []Bound{{3, 0}}, Body: c02EncodeFailure, BudgetQ: 20})
+}
